@@ -333,23 +333,38 @@ Definition data_est (c : cfg) (ser ms : N) (f : fstate) (sc : list fclass) (d : 
   let '(sc', evs) := upper (c_impl c) sc fevs in
   (PEst ser ms f', sc', evs).
 
+(* how each implementation cuts the handshake octets off a read: (handshake octets so far, octets left over).
+   Twisted (both dataReceived): remaining = 4 - len(self._handshake_bytes); self._handshake_bytes += data[:remaining];
+                                ... data = data[remaining:]; if data: self.dataReceived(data)
+   asyncio (RawSocketProtocol.data_received): self._buffer += data; if len(self._buffer) >= 4: process_handshake() reads
+                                self._buffer[:4]; data = self._buffer[4:]; self._buffer = b"" *)
+Definition hs_take (i : impl) (hb d : list N) : list N * list N :=
+  match i with
+  | Tx => let remaining := (4 - length hb)%nat in (hb ++ firstn remaining d, skipn remaining d)
+  | Aio => (firstn 4 (hb ++ d), skipn 4 (hb ++ d))
+  end.
+
+(* the decision on four handshake octets applied to the connection; [rest] goes to the frame receiver *)
+Definition hs_apply (c : cfg) (s : cstate) (o1 o2 o3 o4 : N) (rest : list N) : cstate * list ev :=
+  match hs_decide c o1 o2 o3 o4 with
+  | HsAttach ser ms reply =>
+      (* reply written; _on_handshake_complete: session = factory(); session.onOpen(self) (raises -> abort());
+         then the octets after the handshake go to the frame receiver *)
+      let '(p, sc, evs) := data_est c ser ms (FOpen [] None) (script s) rest in
+      ({| ph := p; sess := true; script := sc |},
+       wr reply ++ SessOpen :: (if c_open_raises c then [Abort] else []) ++ evs)
+  | HsRefuse ab reply =>
+      ({| ph := PDead; sess := false; script := script s |}, wr reply ++ [if ab then Abort else Lose])
+  | HsEscaped e reply =>
+      ({| ph := PDead; sess := false; script := script s |}, wr reply ++ [Escaped e])
+  end.
+
 Definition conn_data (c : cfg) (s : cstate) (d : list N) : cstate * list ev :=
   match ph s with
   | PHs hb =>
-      match hb ++ d with
-      | o1 :: o2 :: o3 :: o4 :: rest =>
-          match hs_decide c o1 o2 o3 o4 with
-          | HsAttach ser ms reply =>
-              (* reply written; _on_handshake_complete: session = factory(); session.onOpen(self) (raises -> abort());
-                 then the octets after the handshake go to the frame receiver *)
-              let '(p, sc, evs) := data_est c ser ms (FOpen [] None) (script s) rest in
-              ({| ph := p; sess := true; script := sc |},
-               wr reply ++ SessOpen :: (if c_open_raises c then [Abort] else []) ++ evs)
-          | HsRefuse ab reply =>
-              ({| ph := PDead; sess := false; script := script s |}, wr reply ++ [if ab then Abort else Lose])
-          | HsEscaped e reply =>
-              ({| ph := PDead; sess := false; script := script s |}, wr reply ++ [Escaped e])
-          end
+      let '(h4, rest) := hs_take (c_impl c) hb d in
+      match h4 with
+      | [o1; o2; o3; o4] => hs_apply c s o1 o2 o3 o4 rest           (* len(self._handshake_bytes) == 4 *)
       | few => ({| ph := PHs few; sess := sess s; script := script s |}, [])
       end
   | PEst ser ms f =>
